@@ -574,7 +574,7 @@ def run_cross_thread(res, prop):
         res.evaluations += 1
         res.cells.add(('cross-thread', blk))
         want = (b'xq', b'x') if blk == 'blpop' else b'x'
-        if got != want or dt > 2.0:
+        if got != want or dt > 3.0:
             res.add(finding(prop, 'served_as_soon_as_pushed(sync producer thread)', 'asyncio %s xq 4 with a push from a sync client on another thread after 0.3 s returned %r after %.2f s' % (blk.upper(), got, dt)))
             return
 
